@@ -215,6 +215,38 @@ def factory_events(events, i):
     return [e for e in events if e[0] == "call" and e[1] == ["in", str(i)]]
 
 
+def empty_update_probes(rng):
+    """indexed updates whose coordinate / update tensors are empty (no element addressed), with a factory as target or as coordinates:
+    the factory is still invoked once with its shape and the result is a tensor; with a control that addresses some elements"""
+    import einx
+    out = []
+    a, b = rng.choice([2, 3]), rng.choice([3, 4])
+    for op in ("set_at", "add_at", "subtract_at"):
+        for p in (0, 3):
+            for where in ("target", "coordinates"):
+                calls = []
+                idx, upd = np.zeros((p, 1), dtype=np.int64), np.ones((p,))
+
+                def fac(shape, _calls=calls, _where=where, _idx=idx):
+                    _calls.append(shape)
+                    return np.zeros(shape) if _where == "target" else np.array(_idx)
+                args = [fac, idx, upd] if where == "target" else [np.zeros((a, b)), fac, upd]
+                tags = {"kind": "factory_with_empty_update", "position": where, "empty": p == 0}
+                try:
+                    r = common.with_alarm(30, getattr(einx, op), "a [b], p [1], p -> a [b]", *args, a=a, b=b)
+                except BaseException as e:  # noqa: BLE001
+                    out.append((dict(tags, outcome=common.classify_exc(e)), {"op": op, "p": p, "message": str(e)[:300]}))
+                    continue
+                want = (a, b) if where == "target" else (p, 1)
+                if not isinstance(r, np.ndarray):
+                    out.append((dict(tags, outcome="result_is_not_a_tensor:" + type(r).__name__), {"op": op, "p": p, "factory_calls": str(calls)}))
+                elif calls != [want]:
+                    out.append((dict(tags, outcome="factory_call_count:" + str(len(calls))), {"op": op, "p": p, "factory_calls": str(calls), "expected": str([want])}))
+                else:
+                    out.append((None, None))
+    return out
+
+
 def run(ctx):
     import einx  # noqa: F401
     n = 220 if ctx.tier == "quick" else 8000
@@ -235,6 +267,10 @@ def run(ctx):
         items.append((c, positions, kinds, ctx.rng.randrange(1 << 30)))
         ctx.distinct.add(c.op + "|" + c.desc + "|" + json.dumps(positions))
     res = common.pmap(_work, items)
+    probes = empty_update_probes(ctx.rng)
+    for tags, payload in probes:
+        if tags is not None:
+            ctx.report(tags, payload)
     graphs = []
     for viol, gs in res:
         graphs.extend(gs)
